@@ -105,7 +105,41 @@ var oddLiterals = []string{
 	"16777217.000000001", "33554434.000000001", "1.00000005960464478", "1e39",
 }
 
-var litTemplates = []string{"# + 0", "# * 1", "0 + #", "1 * #", "-#", "- # + 0", "abs(#)", "max(#, 0)", "min(#, #)", "max(0 + #, 1)", "# == #", "# < #", "# >= #",
+// fixedLimitLiterals: for D1, D2, D4, D6 and D16 the largest and smallest representable value, one unit beyond each
+// (not representable: an error), halves, and the neighbours of powers of ten.
+func fixedLimitLiterals() []string {
+	var out []string
+	for _, places := range []int{1, 2, 4, 6, 16} {
+		point := func(digits string) string { // insert the decimal point `places` digits from the right
+			neg := strings.HasPrefix(digits, "-")
+			digits = strings.TrimPrefix(digits, "-")
+			for len(digits) <= places {
+				digits = "0" + digits
+			}
+			s := digits[:len(digits)-places] + "." + digits[len(digits)-places:]
+			if neg {
+				s = "-" + s
+			}
+			return s
+		}
+		out = append(out, point("9223372036854775807"), point("-9223372036854775808"), point("9223372036854775808"), point("-9223372036854775809"),
+			point("9223372036854775806"), point("4611686018427387904"), point("4611686018427387903"), point("-4611686018427387905"),
+			point("1"), point("-1"), point("0"), point("9"), point("10"), point("11"), point("999999999"), point("1000000001"))
+		ip := "9223372036854775807"[:19-places]
+		out = append(out, ip, "-"+ip, ip+"0", "1"+strings.Repeat("0", 18-places), strings.Repeat("9", 18-places))
+	}
+	return out
+}
+
+func init() {
+	oddLiterals = append(oddLiterals, fixedLimitLiterals()...)
+	oddLiterals = append(oddLiterals, "0", "1", "-1", "2", "0.5", "9223372036854775807", "9223372036854775808", "18446744073709551615", "18446744073709551616",
+		"4294967295", "4294967296", "2147483647", "2147483648", "65535", "65536", "255", "256", "0.0001", "0.00001", "0.00005", "0.00004999", "99999999", "100000001")
+}
+
+var litTemplates = []string{"# + #", "# - #", "# * #", "# / #", "# % #", "# ^ 2", "# < #", "# >= #", "# + 0.0001", "# - 0.0001", "# * 2", "# / 0.5", "# * -1",
+	"max(#, #)", "min(#, #)", "round(#)", "floor(#)", "ceil(#)", "abs(#) - #", "round(# / 3)", "floor(# * 0.5)", "ceil(-#)", "floor(-#)", "round(-# - 0.5)",
+	"0 * -1 + #", "1 / (0 * -1)", "min(0, 0 * -1)", "(0 * -1) == 0", "# - # == 0", "-# + #", "# + 0", "# * 1", "0 + #", "1 * #", "-#", "- # + 0", "abs(#)", "max(#, 0)", "min(#, #)", "max(0 + #, 1)", "# == #", "# < #", "# >= #",
 	"if(#, 1, 2)", "if(1, #, 2) * 1", "sqrt(#)", "floor(#)", "# - 0", "# / 1", "1 * # + 0", "(#) * 1", "#", "$x * #", "# + # - #", "abs(max(#, #))", "!#", "# && 1", "# ^ 1", "# % 7"}
 
 func floatLit(r *hx.Rng) string {
